@@ -335,4 +335,53 @@ theorem run_inv {α} (one : List Nat → Int → Bool → Except ErrKind α) (al
   | nil => exact hinv
   | cons op ops ih => exact ih _ (step_inv one all n s op hinv)
 
+/-! ### the reader behind a lazily read image -/
+
+theorem rrun_append (sc : Bool) (s : RState) (a b : List ROp) :
+    rrun sc s (a ++ b) = ((rrun sc (rrun sc s a).1 b).1, (rrun sc s a).2 ++ (rrun sc (rrun sc s a).1 b).2) := by
+  induction a generalizing s with
+  | nil => simp [rrun]
+  | cons op ops ih => simp [rrun, ih, List.append_assoc]
+
+/-- a nested single read leaves a reader that is entered once as it was, and finds the file open -/
+theorem nested_single (sc : Bool) : rrun sc ⟨1, true⟩ singleOps = (⟨1, true⟩, [true]) := by
+  cases sc <;> decide
+
+theorem nested_reads (sc : Bool) (k : Nat) (via : Bool) :
+    rrun sc ⟨1, true⟩ (List.replicate k (if via then singleOps else [.read])).flatten = (⟨1, true⟩, List.replicate k true) := by
+  induction k with
+  | zero => rfl
+  | succ k ih =>
+    rw [List.replicate_succ, List.flatten_cons, rrun_append]
+    have h1 : rrun sc ⟨1, true⟩ (if via then singleOps else [.read]) = (⟨1, true⟩, [true]) := by
+      cases via
+      · cases sc <;> decide
+      · exact nested_single sc
+    rw [h1, ih]
+    simp [List.replicate_succ]
+
+/-- one call of a method of a lazily read image: from the rest state back to the rest state, every read with the file open -/
+theorem call_from_rest (sc : Bool) (c : LazyCall) :
+    rrun sc (restState sc) c.ops = (restState sc, List.replicate c.reads true) := by
+  cases c with
+  | single => cases sc <;> decide
+  | batch k via =>
+    have henter : rstep sc (restState sc) .enter = (⟨1, true⟩, []) := by cases sc <;> decide
+    have hexit : rrun sc ⟨1, true⟩ [.exit] = (restState sc, []) := by cases sc <;> decide
+    simp only [LazyCall.ops, LazyCall.reads]
+    show rrun sc (restState sc) (ROp.enter :: ((List.replicate k (if via then singleOps else [.read])).flatten ++ [.exit])) = _
+    rw [rrun]
+    simp only [henter, List.nil_append]
+    rw [rrun_append, nested_reads, hexit]
+    simp
+
+theorem runCalls_spec (sc : Bool) (calls : List LazyCall) :
+    runCalls sc calls = (restState sc, List.replicate (calls.map LazyCall.reads).sum true) := by
+  unfold runCalls
+  induction calls with
+  | nil => rfl
+  | cons c cs ih =>
+    rw [List.map_cons, List.flatten_cons, rrun_append, call_from_rest, ih]
+    simp [List.replicate_append_replicate]
+
 end HdVerif.FramePathsLemmas
